@@ -90,21 +90,20 @@ theorem initializers_run_at_creation (beh : Beh) (st : State) (parent : Option N
 guarantees (`WF`, `RegWF`) and a rank on constructors that strictly decreases along every declared
 dependency (plain, keyed, group member, parameter-object field) — it exists exactly when the
 dependency relation is acyclic, which Build has checked. For every such registry, every constructor
-behaviour (failures and panics at any invocation included; `NoNilOutputs`: no result-object field left
-nil — what a nil field does after the repair of D15 is `nil_field_not_constructed_again`), every state satisfying the invariant and every history of
+behaviour (failures and panics at any invocation, result-object fields left nil at any invocation), every state satisfying the invariant and every history of
 Get / GetKeyed / GetGroup / CreateScope / Close over existing scopes: in no scope does the
 constructor of a scoped registration succeed twice, and once it has succeeded every identity of the
 registration (aliases, multiple returns, result fields) is cached in that scope, so every later
 resolution there — direct, keyed, via a group, or as an argument — is a cache hit (`cache_hit`).
 (Registries with scoped initializer functions: the initializer clause is `initializers_run_at_creation`;
 this theorem assumes `st.initializers = []`.) -/
-theorem one_instance_per_scope (beh : Beh) (hnil : NoNilOutputs beh) (descs : List Desc) (rank : Nat → Nat)
+theorem one_instance_per_scope (beh : Beh) (descs : List Desc) (rank : Nat → Nat)
     (cfg : Cfg descs rank) (st : State) (inv : SInv descs st) (hi : st.initializers = [])
     (ops : List Op) (hv : ValidHist beh st ops) (s c : Nat) (hc : ScopedCtor descs c) :
     countIn (run beh st ops).log c s ≤ 1 ∧
     (countIn (run beh st ops).log c s = 1 → ((run beh st ops).scope s).disposed = false →
       ∀ d ∈ descs, d.ctor = c → Cached (run beh st ops) s d.ident) := by
-  have h := sinv_run beh hnil descs rank cfg ops st inv hi hv
+  have h := sinv_run beh descs rank cfg ops st inv hi hv
   exact ⟨h.atMost s c hc, h.stored s c hc⟩
 
 /-- the invariant holds in every state in which no scoped constructor has run yet and every open
@@ -118,10 +117,10 @@ theorem invariant_initially (descs : List Desc) (st : State) (hd : st.descs = de
 
 /-- one resolution step inside a scope, with the rank bound made explicit: every constructor event it
 adds ran through that scope, and the invariant is preserved — for every fuel -/
-theorem resolution_preserves (beh : Beh) (hnil : NoNilOutputs beh) (descs : List Desc) (rank : Nat → Nat)
+theorem resolution_preserves (beh : Beh) (descs : List Desc) (rank : Nat → Nat)
     (cfg : Cfg descs rank) (st : State) (inv : SInv descs st) (s ty key : Nat) (hs : s < st.nscopes) :
     SInv descs (scopeGet beh st s ty key).1 :=
-  sinv_scopeGet beh hnil descs rank cfg st inv s ty key hs
+  sinv_scopeGet beh descs rank cfg st inv s ty key hs
 
 def ex : List Desc :=
   [{ id := 0, ident := ⟨3, 0, 0⟩, life := .scoped, ctor := 1, kind := .plain, deps := [] }]
